@@ -798,6 +798,13 @@ ExitStatus Builder::Build(string* err) {
       }
 
       if (result.interrupted() || result.exit_status() == ExitInterrupted) {
+        // A command that was itself killed by an interrupt signal has been
+        // reaped: it is no longer one of the runner's active edges, so
+        // Cleanup() will not give its job slot back.
+        if (result.command_completed() && jobserver_.get()) {
+          jobserver_->Release(
+              std::move(result.GetCommandCompleted().edge->job_slot_));
+        }
         Cleanup();
         status_->BuildFinished();
         *err = "interrupted by user";
